@@ -90,6 +90,7 @@ def spec_terms(k, A, B, n):
             for r in range(12): out.append(('a%d[%d]s%d' % (r // 4, r % 4, s), ('vec', r // 4, 4 * s + (r % 4)), [(st[m], B[12 * r + m]) for m in range(12)]))
     return out
 
+ALIAS = [None]     # in-place variant in progress: index j of the state register that is also the result register (spmv / 4x12 kernels)
 def run(ctx, cfg, n, name, k, A, B, hooks=None, concrete=False):
     """execute the kernel; returns paths [(pc,status,(ret, outs))] where outs = dict(vec=[lists], dot=[...])"""
     fn = fsym(ctx, cfg, name)
@@ -97,7 +98,7 @@ def run(ctx, cfg, n, name, k, A, B, hooks=None, concrete=False):
         ao = [core.obj_words('a%d' % j, list(A[j]), 8 * n) for j in range(3)]
         bo = core.obj_words('M', list(B), 64 if k.get('aligned') else 8)   # unaligned variants get an 8-byte aligned object: any stricter alignment requirement is a violation
         if k['kind'] in ('spmv', 'mm4'):
-            co = Obj(8 * n, 'c', 8 * n); args = [Ptr(co, 0)] + [Ptr(o, 0) for o in ao] + [Ptr(bo, 0)]
+            co = ao[ALIAS[0]] if ALIAS[0] is not None else Obj(8 * n, 'c', 8 * n); args = [Ptr(co, 0)] + [Ptr(o, 0) for o in ao] + [Ptr(bo, 0)]
             return args, (lambda ret: dict(vec=[core.words(co)]))
         if k['kind'] == 'mm':
             args = [Ptr(o, 0) for o in ao] + [Ptr(bo, 0)]
@@ -145,7 +146,8 @@ def prove_with(ctx, paths, bc, goalf, pre, timeout):
         if r.status != 'unsat': return ('pre', lab, r)
     return kern.prove_paths(ctx, paths, goalf, pre=list(pre) + bc.assume, timeout=timeout)
 
-def ob_kernel(ctx, cfg, n, name, k):
+def ob_kernel(ctx, cfg, n, name, k, alias=None):
+    ALIAS[0] = alias
     T = lanes.table(n == 8); sfx = '_avx512' if n == 8 else '_avx'
     tmo = 300 if ctx.thorough else 90
     A, B = mk_inputs(k, n); spec = spec_terms(k, A, B, n)
@@ -208,7 +210,7 @@ def native_run(ctx, cfg, n, name, k, Av, Bv):
     if f is None: return None
     ab = [kern.u64buf(Av[j]) for j in range(3)]; bb = kern.u64buf(Bv)
     if k['kind'] in ('spmv', 'mm4'):
-        c = kern.u64buf([0] * n); f(ctypes.byref(c), *[ctypes.byref(x) for x in ab], ctypes.byref(bb)); return dict(vec=[list(c)])
+        c = ab[ALIAS[0]] if ALIAS[0] is not None else kern.u64buf([0] * n); f(ctypes.byref(c), *[ctypes.byref(x) for x in ab], ctypes.byref(bb)); return dict(vec=[list(c)])
     if k['kind'] == 'mm':
         f(*[ctypes.byref(x) for x in ab], ctypes.byref(bb)); return dict(vec=[list(x) for x in ab])
     if n == 8:
@@ -229,12 +231,16 @@ def confirm(ctx, cfg, n, name, k, Av, Bv, mode):
         got = out_term(outs, loc); exp = sum(x * y for x, y in terms) % P
         if got % P != exp:
             nz = {'a%d[%d]' % (j, i): hex(Av[j][i]) for j in range(3) for i in range(n) if Av[j][i]}; nzb = {'m[%d]' % t: hex(v) for t, v in enumerate(Bv) if v}
-            return viol(name, 'Goldilocks::%s %s = %#x (= %d mod p), expected %d mod p; inputs %s coefficients %s (%s)' % (name, lab, got, got % P, exp, nz, nzb, how),
-                        replay=dict(kernel=name, cfg=cfg, n=n, A=Av, B=Bv, how=how))
+            return viol(name, 'Goldilocks::%s%s %s = %#x (= %d mod p), expected %d mod p; inputs %s coefficients %s (%s)' % (name, (' [result register is state register a%d]' % ALIAS[0]) if ALIAS[0] is not None else '', lab, got, got % P, exp, nz, nzb, how),
+                        replay=dict(kernel=name, cfg=cfg, n=n, A=Av, B=Bv, how=how, alias=ALIAS[0]))
     return inconc('ENCODING-MISMATCH: model for %s does not reproduce (%s)' % (name, how))
 
 def obligations(ctx, cfg, n):
     obs = [Ob(name, ob_kernel, (cfg, n, name, k), weight=5) for name, k in kernels(n == 8).items()]
+    # in-place uses the signatures allow: the result register of a sparse / 4x12 product is one of the three state registers
+    for name, k in kernels(n == 8).items():
+        if k['kind'] in ('spmv', 'mm4'):
+            for j in range(3): obs.append(Ob('%s/c=a%d' % (name, j), ob_kernel, (cfg, n, name, k, j), weight=5))
     # contracts relied on (lane kernels of C02/C11 and scalar add of C01) are re-proved in this run
     T = lanes.table(n == 8); sfx = '_avx512' if n == 8 else '_avx'
     for kn in CONTRACT_KERNELS(n):
@@ -256,6 +262,6 @@ def validate(ctx, cfg, n):
 
 def replay(ctx, d):
     if 'event' in d: return True, d['event']
-    k = kernels(d['n'] == 8)[d['kernel']]
+    k = kernels(d['n'] == 8)[d['kernel']]; ALIAS[0] = d.get('alias')
     r = confirm(ctx, d['cfg'], d['n'], d['kernel'], k, d['A'], d['B'], 'replay')
     return r['status'] == 'violation', r['detail']
